@@ -23,7 +23,7 @@ from mc.report import Report
 from mc.seqmc import Spec, Mismatch, explore, observe
 from windpyutils import files as wf
 
-ENDINGS = ["\n", "\r\n", "\t", "", "XY"]
+ENDINGS = ["\n", "\r\n", "\t", "", "yN}"]   # the last one shares characters with the ends of some lines ("é y", "N", "...}")
 NEW = ["", "N", "é"]                   # contents used by the mutators
 CONTENT = ["", "x", "é y"]             # contents of the lines of the source file
 REMOVE = ["", "N", "é", "x"]           # remove(s): the new contents plus one that can only be file-backed
@@ -503,7 +503,7 @@ def run(report, tier):
                 "pop(i), remove(s), reverse(), f+=[s]; i in [-n-1,n]; s in {'','N','é'}) applied in one distinct state of a "
                 "real mutable line file, followed by len / list(f) / f[i] for every i in [-n-1,n] / two slices / dirty / "
                 "source-bytes comparison with a Python list; in every distinct state additionally save() to a path and to "
-                "a StringIO with endings \\n, \\r\\n, \\t, '', 'XY' (byte comparison) and a reopen of the \\n copy; "
+                "a StringIO with endings \\n, \\r\\n, \\t, '', 'yN}' (byte comparison) and a reopen of the \\n copy; "
                 "non-trivial = distinct state whose lines are partly file-backed and partly in memory")
     report.assume("the file / mmap cursor is left out of the canonical state key: every read of a mutable file seeks "
                   "first (iteration of an unmodified file seeks to 0), so the cursor does not influence later operations")
